@@ -15,6 +15,9 @@ import (
 	staticpeers "github.com/attestantio/dirk/services/peers/static"
 	"github.com/attestantio/dirk/services/process"
 	standardprocess "github.com/attestantio/dirk/services/process/standard"
+	"github.com/attestantio/dirk/services/sender"
+	sendergrpc "github.com/attestantio/dirk/services/sender/grpc"
+	"github.com/attestantio/dirk/testing/resources"
 	localunlocker "github.com/attestantio/dirk/services/unlocker/local"
 	"github.com/attestantio/dirk/util"
 	"github.com/herumi/bls-eth-go-binary/bls"
@@ -42,6 +45,7 @@ type Node struct {
 
 // Cluster is a set of Dirk instances connected only by the simulated transport.
 type Cluster struct {
+	realSender bool
 	// OmitPassphrase: generation requests of clients carry no passphrase (the configured one is used).
 	OmitPassphrase bool
 	rc             *RunCtx
@@ -91,12 +95,16 @@ type ClusterCfg struct {
 	AdminIPs   []string          // administrator addresses of every instance; default 10.0.0.1
 	ExtraPeers map[uint64]string // further entries of every instance's peer table (configured peers that are not running)
 	Pops       []*Population     // ready-made populations for the first nodes (instead of Specs)
+	// RealSender: the instances talk to each other through Dirk's own sender (services/sender/grpc: connection pool,
+	// TLS with the instance's certificate) and each other's real gRPC edge; Ports are the edges' loopback ports.
+	RealSender bool
+	Ports      []int
 }
 
 // NewCluster builds n instances, each with its own wallet store, badger directory and services.
 func NewCluster(t *testing.T, rc *RunCtx, s *Sched, cfg ClusterCfg) *Cluster {
 	InitBLS()
-	c := &Cluster{rc: rc, t: t, S: s, byName: map[string]*Node{}, Timeout: cfg.Timeout, Perms: cfg.Perms, AdminIPs: cfg.AdminIPs}
+	c := &Cluster{rc: rc, t: t, S: s, byName: map[string]*Node{}, Timeout: cfg.Timeout, Perms: cfg.Perms, AdminIPs: cfg.AdminIPs, realSender: cfg.RealSender}
 	if c.AdminIPs == nil {
 		c.AdminIPs = []string{"10.0.0.1"}
 	}
@@ -114,6 +122,9 @@ func NewCluster(t *testing.T, rc *RunCtx, s *Sched, cfg ClusterCfg) *Cluster {
 	for i, id := range cfg.IDs {
 		name := fmt.Sprintf(cfg.NameFmt, i+1)
 		peerMap[id] = fmt.Sprintf("%s:%d", name, 9000+i)
+		if i < len(cfg.Ports) {
+			peerMap[id] = fmt.Sprintf("%s:%d", name, cfg.Ports[i])
+		}
 	}
 	for id, addr := range cfg.ExtraPeers {
 		peerMap[id] = addr
@@ -124,6 +135,9 @@ func NewCluster(t *testing.T, rc *RunCtx, s *Sched, cfg ClusterCfg) *Cluster {
 	}
 	for i, id := range cfg.IDs {
 		n := &Node{ID: id, Name: fmt.Sprintf(cfg.NameFmt, i+1), Port: uint32(9000 + i), c: c}
+		if i < len(cfg.Ports) {
+			n.Port = uint32(cfg.Ports[i])
+		}
 		specs := cfg.Specs
 		if specs == nil {
 			specs = []WalletSpec{{Name: "Wallet 3", Kind: "distributed"}}
@@ -160,10 +174,19 @@ func (c *Cluster) startNode(n *Node, dir string) {
 			if err != nil {
 				return nil, err
 			}
+			var snd sender.Service = &nodeSender{net: c.Net, from: n}
+			if c.realSender {
+				rs, err := sendergrpc.New(inst.Ctx, sendergrpc.WithName(n.Name), sendergrpc.WithServerCert(resources.SignerCerts[n.ID]),
+					sendergrpc.WithServerKey(resources.SignerKeys[n.ID]), sendergrpc.WithCACert(resources.CACrt))
+				if err != nil {
+					return nil, err
+				}
+				snd = rs
+			}
 			return standardprocess.New(inst.Ctx,
 				standardprocess.WithChecker(inst.Checker),
 				standardprocess.WithUnlocker(ul),
-				standardprocess.WithSender(&nodeSender{net: c.Net, from: n}),
+				standardprocess.WithSender(snd),
 				standardprocess.WithFetcher(inst.FetcherW),
 				standardprocess.WithEncryptor(n.Pop.Encryptor),
 				standardprocess.WithPeers(n.Peers),
